@@ -18,7 +18,7 @@ ASSUMPTIONS = ["exact sets: acyclic games with arbitrary ties; cyclic stopping g
                "separated by more than 2*delta*T+2e-6 (the property's own scope)",
                "the conditioned game is rebuilt from the reported reachability strategies, so a C04 tie split does not cascade"]
 TIMEOUT = 1800
-TABLE = [("G-LEX", 600), ("G-ACYT", 600), ("G-ACY", 300), ("G-CYC", 500), ("G-DEAD", 400), ("G-TIE", 200), ("G-EC", 200), ("G-SLOW", 80), ("G-ACYNF", 300), ("G-CYCNF", 200), ("G-TINYB", 200), ("G-INIT0NF", 100), ("G-RNEAR", 300), ("G-AUXFAST", 60), ("G-DUPL", 200), ("G-MIX", 500), ("G-SMALLX", 200), ("G-VSLOW", 8)]
+TABLE = [("G-LEX", 600), ("G-ACYT", 600), ("G-ACY", 300), ("G-CYC", 500), ("G-DEAD", 400), ("G-TIE", 200), ("G-EC", 200), ("G-SLOW", 80), ("G-ACYNF", 300), ("G-CYCNF", 200), ("G-TINYB", 200), ("G-INIT0NF", 100), ("G-RNEAR", 300), ("G-AUXFAST", 60), ("G-DUPL", 200), ("G-MIX", 500), ("G-SMALLX", 200), ("G-VSLOW", 4)]
 
 
 def plan(tier, seed):
@@ -59,7 +59,7 @@ def decide(gd, idx, cls):
                 res["stats"]["exact_" + kk] = res["stats"].get("exact_" + kk, 0) + v
             if st["lex_states"] or st["tie_states"] or st["p2_checked"]:
                 res["nontrivial"] = True
-    if idx % 3 == 0 and outs[True].status == "ok" and outs[False].status == "ok":
+    if idx % 3 == 0 and outs[True].status == "ok" and outs[False].status == "ok" and max(outs[True].result[5], outs[False].result[5]) < 20000:
         # one game object, pruned then unpruned (the public prune_states attribute switched in between)
         tad = monitors.mods()["tad"]
         desc = games.to_solver(gd)
